@@ -69,6 +69,7 @@ void system_unlock()
 #endif
 
     mtx.unlock();
+    IGRIS_VERIF_POINT("sl_unlocked", 0, 0);
 }
 
 struct syslock_save_pair system_lock_save()
